@@ -107,15 +107,23 @@ def cc_cfg(threads, scen, defects=(), initlen=2, maxnodes=6):
             % (", ".join(map(str, threads)), scen, initlen, maxnodes, tla_value(set(defects))))
 
 
+def sl_cfg(threads, rounds, defects=()):
+    return ("INIT Init\nNEXT Next\nCONSTANTS Threads = {%s}\n Rounds = %d\n Defects = %s\nINVARIANT MutualExclusion\nINVARIANT HolderIsMtx\n"
+            "INVARIANT FlagMeansHeld\nINVARIANT NoDeadlock\nCHECK_DEADLOCK FALSE\n" % (", ".join(map(str, threads)), rounds, tla_value(set(defects))))
+
+
 def c03(tier, seed):
     quick = tier == "quick"
     sc2 = ["2:i1|r1", "2:i2|r2,a", "2:a,v|r1", "2:r1|r1", "2:p,o1|r1,e", "2:v|r2,a", "2:i1,v|r1,a", "2:a,r10|v", "1:r1,e|a,e", "2:f|i2,r1", "0:a,r10|e,v",
            "2:i1|i1", "2:p|a", "2:o1,o2|r1,r2", "3:v|r2,r3"]
     sc3 = ["2:i1|r1|v", "2:a|p|r1", "2:r1|r1|i1", "2:v|a,r20|r2", "2:i1|r1|r1", "2:f|r1|i1"]
     scen = [{"scenario": s, "bound": 3 if len(s) < 9 else 2} for s in sc2] + [{"scenario": s, "max": 3000 if quick else 100000, "bound": 1} for s in sc3]
-    models = [{"module": "ConcCLMC", "tag": "2threads", "cfg": cc_cfg([1, 2], "ScenSet")}]
+    models = [{"module": "ConcCLMC", "tag": "2threads", "cfg": cc_cfg([1, 2], "ScenSet")},
+              # the SpinLock policy mutex refines the `mtx` abstraction the other models use
+              {"module": "SpinLock", "tag": "spinlock", "cfg": sl_cfg([1, 2, 3], 2 if quick else 3)}]
     if not quick:
         models.append({"module": "ConcCLMC", "tag": "3threads-1call", "cfg": cc_cfg([1, 2, 3], "ScenSet1"), "heap": "16g"})
+        models.append({"module": "SpinLock", "tag": "spinlock-4threads", "cfg": sl_cfg([1, 2, 3, 4], 2)})
     stress_sc = [{"scenario": s, "every": 2} for s in ["2:i1|r1", "2:a,v|r1,p", "2:p,o1|r1,e", "2:i1,v|r1,a", "2:a,r10|v,e", "2:i1|r1|v", "2:a,f|p,e|r1,r2", "1:p,e|a,e|r1"]]
     # lock-level stress (own scenario syntax threads:rounds); and list-level contention with several rounds per thread
     stress_sc += [{"scenario": "4:300", "own": True, "count": 40 if quick else 400}, {"scenario": "8:100", "own": True, "count": 40 if quick else 400},
@@ -123,13 +131,15 @@ def c03(tier, seed):
     stress_sc += [{"scenario": "0:a,a,r10,r11,a,r14|a,a,r20,r21,a,r24|a,e,p,o30,v|f,a,r40,e", "every": 2, "count": 100 if quick else 2000}]
     return {"models": models, "runners": RUNNERS_CC, "trace_module": "TraceCC", "scenarios": scen,
             "stress_runners": STRESS_CC, "stress_scenarios": stress_sc,
-            "corpus": [],
+            "corpus": [], "model_defects": [{"module": "SpinLock", "cfg": sl_cfg([1, 2, 3], 2, defects=["cas_stale"]), "defect": "cas_stale"}],
             "rule": "ConcCL.tla (threads x micro-steps of callbacklist.h with the abstract list updated at the linearization points) model-checked over all "
                     "interleavings of the scenario sets; on the real CallbackList and EventDispatcher (std::map and std::unordered_map) every scenario "
                     "(all mixes of append/prepend/insert/remove/ownsHandle/empty/invoke/forEach with shared handles) is explored by depth-first "
                     "schedule enumeration with a preemption bound plus seeded random schedules; TraceCC.tla decides linearizability of results and of "
                     "the final order by tracking the set of consistent abstract configurations, the traversal visit rules, no deadlock and no unlocked "
-                    "structural access; non-trivial = distinct schedules that switch threads at a decision point",
+                    "structural access; SpinLock.tla (test_and_set loop) is model-checked to refine the mutex abstraction, and the shipped SpinLock / std::mutex "
+                    "are hammered by real threads with acquisitions logged from inside the critical section and validated by TraceLock.tla; "
+                    "non-trivial = distinct schedules that switch threads at a decision point",
             "assumptions": ASSUME + ["the controlled runs replace the shipped std::mutex / SpinLock by the scheduler's mutex; the stress runs use the shipped ones with real "
                                      "threads under ThreadSanitizer (data races are reported by TSan, not specified)"]}
 
